@@ -385,6 +385,18 @@ func genPrim(o *hx.Out, rng *hx.Rng, exh, nrand int) {
 			}
 		}
 	}
+	// keys whose low 32 bits are the expected key, written as the shortest varint of key + m*2^32
+	for _, op := range allOps {
+		for _, fn := range []int{1, 2, 15, 16, 2047} {
+			k := keyFor(op, fn)
+			kv, _ := binaryUvarint(k)
+			for _, m := range []uint64{1, 2, 1 << 28, 1 << 31, 1<<32 - 1} {
+				d := append(append([]byte{}, cx.Uvarint(kv+m<<32)...), 0x01, 0x01, 0x00)
+				o.Put(runRead(op, fn, true, d, 0, int64(len(d))))
+				o.Put(runRead(op, fn, false, d, 0, int64(len(d))))
+			}
+		}
+	}
 	// packed arrays / bytes arrays with elements straddling the declared end, and nested-reader states
 	samples := [][]byte{
 		{0x0a, 0x01, 0x80, 0x01},             // packed length 1, two-byte element
@@ -499,4 +511,17 @@ func genPrim(o *hx.Out, rng *hx.Rng, exh, nrand int) {
 		o.Put(runRead(op, rfn, rng.Bool(), d, 0, int64(len(d))))
 		o.Put(runRead(allOps[rng.Intn(len(allOps))], rfn, rng.Bool(), d, 0, int64(len(d))))
 	}
+}
+
+func binaryUvarint(b []byte) (uint64, int) {
+	var x uint64
+	var sh uint
+	for i, c := range b {
+		if c < 0x80 {
+			return x | uint64(c)<<sh, i + 1
+		}
+		x |= uint64(c&0x7f) << sh
+		sh += 7
+	}
+	return 0, 0
 }
